@@ -20,10 +20,10 @@ def namesDistinct : List Bytes → Bool
   | n :: ns => !ns.contains n && namesDistinct ns
 
 mutual
-/-- some value of the type serialises to the bare atom `undefined` (or the type is `()`, which the property excludes) -/
+/-- some value of the type serialises to the bare atom `undefined`.  (`()` does not: with the default features it is the
+atom `nil`, so `Option<()>` — which the property allows to be excluded — is in fact carried faithfully and is covered.) -/
 def mayBeUndef : Ty → Bool
   | .option _ => true
-  | .unit => true
   | .unitStruct n => decide (n = sUndefined)
   | .newtype _ t => mayBeUndef t
   | .enum _ vs => anyUndefVariant vs
@@ -142,6 +142,13 @@ def keysStableF : List (Bytes × Val) → Bool
   | (_, v) :: r => keysStable v && keysStableF r
 end
 
+/-- the number an integer term denotes, in either of its two representations (SMALL_INTEGER/INTEGER_EXT, or
+SMALL_BIG/LARGE_BIG_EXT: sign and little-endian base-256 digits) -/
+def intVal : Term → Option Int
+  | .int i => some i
+  | .big neg d => some (if neg then -((magVal d : Nat) : Int) else ((magVal d : Nat) : Int))
+  | _ => none
+
 mutual
 /-- the decoder's resource limits and atom rules, on a term of the serialiser's fragment -/
 def wireFits : Term → Bool
@@ -163,5 +170,24 @@ def wireFitsKV : List (Term × Term) → Bool
   | [] => true
   | (k, v) :: r => wireFits k && wireFits v && wireFitsKV r
 end
+
+mutual
+/-- how many levels of containers the decoder descends into below the term's own level (it refuses more than
+`MAX_NESTING_DEPTH`) -/
+def nesting : Term → Nat
+  | .list l => 1 + nestingL l
+  | .tuple l => 1 + nestingL l
+  | .map kvs => 1 + nestingKV kvs
+  | _ => 0
+def nestingL : List Term → Nat
+  | [] => 0
+  | t :: ts => max (nesting t) (nestingL ts)
+def nestingKV : List (Term × Term) → Nat
+  | [] => 0
+  | (k, v) :: r => max (max (nesting k) (nesting v)) (nestingKV r)
+end
+
+/-- the term of the value is one the decoder accepts: within its size limits and its nesting limit -/
+def decodable (t : Term) : Bool := wireFits t && decide (nesting t ≤ MAX_NESTING_DEPTH)
 
 end Edp.Spec.Serde
